@@ -52,6 +52,8 @@ Holds(rec) ==
          ELSE CASE Prop = "C14" -> KnownSubColon(rec.args.s) \/ Lossless(rec.args.s, RFromRes(rec.res))
                 [] Prop = "C10" -> PortExact(rec.args.s, RFromRes(rec.res))
                 [] Prop = "C18" -> ViewsReal(rec.args.s, rec.res)
+                \* beyond C14 (which asks of a tel: URI only "number = user, host empty"): tel: URIs tile their input too
+                [] Prop = "X-tel" -> KnownSubColon(rec.args.s) \/ KnownTelPass(RFromRes(rec.res)) \/ TelLossless(rec.args.s, RFromRes(rec.res))
                 [] OTHER -> TRUE
     [] rec.fn = "AdjustOffs" -> (Prop \notin {"C18", "C11"}) \/ RelocateReal(rec.args.s, rec.args.offs, rec.args.len, rec.res)
     [] OTHER -> TRUE
